@@ -118,6 +118,16 @@ let () =
         print_endline (presult_str (parse_config (strict = "1") (schema_of sch) (unhex c)))
       | "NP" :: strict :: sch :: c :: _ ->
         print_endline (if nparse_config (strict = "1") (parse_nested sch) (unhex c) then "accept" else "reject")
+      | "IX" :: t :: _ ->
+        (match parse_index true (unhex t) with
+         | IndexError -> print_endline "error"
+         | IndexOutOfFuel -> print_endline "outoffuel"
+         | IndexOk gs -> print_endline ("ok " ^ String.concat ";" (List.map (fun (n, v) -> hex n ^ "=" ^ String.concat "," (List.map z_str v)) gs)))
+      | "TL" :: t :: _ -> print_endline (hex (to_lower (unhex t)))
+      | "CA" :: _ :: _ -> print_endline "ok"
+      | "KM" :: c :: k :: _ ->
+        let r = key_string_values (unhex c) (unhex k) in
+        print_endline (String.trim ((if r.ksv_err then "error " else if r.ksv_found then "found " else "notfound ") ^ String.concat "|" (List.map hex r.ksv_all)))
       | "KS" :: calls :: _ ->
         (* successive key_lookup calls on one parser object: conf:key:savepos|conf:key:savepos|... *)
         let cl = List.map (fun c -> match String.split_on_char ':' c with
